@@ -334,6 +334,51 @@ def r5_conveyance(ctx):
            "" if ok else "a return of get_thread_bindings is reachable without walking the frames: a stored snapshot is handed out, which misses a set! performed after it was taken, so work conveyed later runs with stale bindings")
 
 
+@rule("C11.R6", floor=2)
+def r6_binding_storage_outlives_redeclaration(ctx):
+    """A Var's thread-local storage (`_tl`) holds the binding stacks of *every* thread.  It is created
+    when the Var becomes dynamic and may be replaced only when the dynamic flag actually changes:
+    re-evaluating (def ^:dynamic v ...) on one thread while another is inside (binding [v ...])
+    must not throw that thread's stack away (its reads would fall back to the root and leaving its
+    binding form would fail, stranding the other Vars of the frame).  No test of 'is this Var
+    bound' can justify a replacement: such a test only sees the calling thread."""
+    var = P.find_def(ctx.py(RT), "Var")
+    if var is None:
+        raise AnalysisError("anchor vanished: runtime.Var")
+    n = 0
+    for m in P.all_methods(var):
+        stores = [(s, a) for s, a in P.self_attr_stores(m) if a == "_tl"]
+        if not stores:
+            continue
+        if m.name == "__init__":
+            n += 1
+            ctx.ob("C11.R6", f"{RT}::Var.__init__::creates the binding storage", RT, m.lineno, True)
+            continue
+        g = CFG(m)
+        for s, _a in stores:
+            n += 1
+            nodes = [nd for nd in g.nodes if nd.ast is s]
+
+            def flag_changes(a, b, lab):
+                if a.kind != "test" or not isinstance(a.ast, ast.Compare) or len(a.ast.ops) != 1:
+                    return False
+                sides = {P.un(a.ast.left), P.un(a.ast.comparators[0])}
+                if sides != {"dynamic", "self._dynamic"}:
+                    return False
+                return (isinstance(a.ast.ops[0], (ast.Eq, ast.Is)) and lab is False) or (isinstance(a.ast.ops[0], (ast.NotEq, ast.IsNot)) and lab is True)
+            ok = bool(nodes) and all(g.edge_dominated(nd, flag_changes) for nd in nodes)
+            if not ok and isinstance(s.value, ast.Constant) and s.value.value is None:
+                # dropping the storage of a Var that is being made non-dynamic loses nothing it could still use
+                def not_dynamic(a, b, lab):
+                    return a.kind == "test" and ((P.un(a.ast) == "dynamic" and lab is False) or (P.un(a.ast) == "not dynamic" and lab is True))
+                ok = bool(nodes) and all(g.edge_dominated(nd, not_dynamic) for nd in nodes)
+            ctx.ob("C11.R6", f"{RT}::Var.{m.name}::{P.un(s)} only when the dynamic flag changes", RT, s.lineno, ok,
+                   "" if ok else f"Var.{m.name} can replace the thread-local binding storage although the Var stays dynamic: bindings other threads hold at that moment are lost",
+                   witness="thread A inside (binding [*d* 1 *e* 2] ...), thread B re-evaluates (def ^:dynamic *d* 0): A reads the root, and leaving A's form raises IndexError with *e* still bound")
+    if n == 0:
+        raise AnalysisError("no store to Var._tl found")
+
+
 _PUSH_FIXED = '''    pushed: list[Var] = []
     try:
         for var, val in m.items():
